@@ -84,6 +84,10 @@ theorem Fr.recvOpen (h : Fr s t) (id : Nat) (b : Bool) : Fr s (t.recvOpen id b).
   fr_by Streams.recvOpen
 macro_rules | `(tactic| fr_peel) => `(tactic| with_reducible apply Fr.recvOpen)
 
+theorem Fr.notifyPushIfRecvEnded (h : Fr s t) (id : Nat) : Fr s (t.notifyPushIfRecvEnded id) := by
+  fr_by Streams.notifyPushIfRecvEnded
+macro_rules | `(tactic| fr_peel) => `(tactic| with_reducible apply Fr.notifyPushIfRecvEnded)
+
 set_option maxHeartbeats 800000 in
 theorem Fr.recvRecvHeaders (h : Fr s t) (id : Nat) (hd : HeadersIn) : Fr s (t.recvRecvHeaders id hd).1 := by
   fr_by Streams.recvRecvHeaders
